@@ -408,7 +408,13 @@ func (c *compiler) findTypedef(y *Type, parent Definition, qualifiedIdent string
 				// issue #50 - submodules can reference types in parent and in any
 				// other submodule w/o prefix
 				if m, isModule := p.(*Module); isModule && m.belongsTo != nil {
-					p = m.Parent().(Definition)
+					// a submodule continues in the module it belongs to; a "belongs-to" in a
+					// file that was not loaded as a submodule has none
+					parentDef, hasParent := m.Parent().(Definition)
+					if !hasParent {
+						break
+					}
+					p = parentDef
 				}
 			}
 		}
